@@ -8,9 +8,9 @@
 //case: pipe(5, &[true, false, true, true]) ||| un (src_pipe 20 5 [true; false; true; true])
 //case: pipe(2, &[true, true, true, true]) ||| un (src_pipe 20 2 [true; true; true; true])
 //case: pipe(0, &[true]) ||| un (src_pipe 20 0 [true])
-//grid: chk({a}) ||| src_chk {a} ||| a=-1,0,4
-//grid: { let mut s = St { v: {a} }; s.bump(); s.v } ||| St_v (src_St_bump (Build_St {a})) ||| a=-3,3,100
-// an iterator value driven to a list (`zip`), `filter_map`, `fold` on lists; `panic!` paths (skipped: Rust panics there)
+//pgrid: chk({a}) ||| src_chk {a} ||| a=-1,0,4
+//pgrid: { let mut s = St { v: {a} }; s.bump(); s.v } ||| option_map St_v (src_St_bump (Build_St {a})) ||| a=-3,3,100
+// an iterator value driven to a list (`zip`), `filter_map`, `fold` on lists; `panic!` paths (None: partial functions)
 pub struct Cnt { i: i32, n: i32 }
 impl Cnt { pub fn new(n: i32) -> Self { Cnt { i: 0, n } } }
 impl Iterator for Cnt {
